@@ -316,7 +316,9 @@ def schedule_strategy(max_dur=12, max_epochs=5, min_posterior=1, chains=(1, 3), 
         kkeys = [k for kk in kernels for k in kk["keys"]]
         extra = [k for k in POOL if k not in kkeys]
         incl = draw(st.lists(st.sampled_from(extra), unique=True, max_size=len(extra))) if extra else []
-        excl = draw(st.lists(st.sampled_from(kkeys), unique=True, max_size=len(kkeys) - 1)) if len(kkeys) > 1 else []
+        # excluded keys override included ones; at least one kernel key always stays tracked
+        pool = kkeys[1:] + incl
+        excl = draw(st.lists(st.sampled_from(pool), unique=True, max_size=len(pool))) if pool else []
         n_chains = draw(st.integers(*chains))
         sp = {"epochs": epochs, "chains": n_chains, "chunk": chunk, "kernels": kernels, "shapes": shapes,
               "included": incl, "excluded": excl, "store_ks": draw(st.booleans()), "seed": draw(st.integers(0, 2**20)),
